@@ -75,8 +75,43 @@ def catalogue():
     return out
 
 
+ORPHAN_ACCLOOP = [["accLoop", 0, NEST2]]
+# routine shapes for the module catalogue: every routine-level fact a check can depend on, present or
+# absent (acc routine / declare target at the top, compute regions, OpenMP, orphaned loop directives)
+ROUTINE_SHAPES = [
+    NEST2,
+    [["accRoutine", 0, []]] + NEST2,
+    [["ompDeclareTarget", 0, []]] + NEST2,
+    [["ompDeclareTarget", 0, []], ["accRoutine", 0, []]] + NEST2,
+    ORPHAN_ACCLOOP,
+    [["accRoutine", 0, []]] + ORPHAN_ACCLOOP,
+    [["ompDeclareTarget", 0, []]] + ORPHAN_ACCLOOP,
+    [["accParallel", 0, ORPHAN_ACCLOOP]],
+    [["accKernels", 0, NEST2]],
+    [["accRoutine", 0, []], ["accParallel", 0, NEST2]],
+    [["accRoutine", 0, []], ["ompParallelDo", 0, NEST2]],
+    [["ompParallel", 0, [["ompDo", 2, NEST2]]]],
+    [["ompDo", 0, NEST2]],
+    [["stmt", 0, []], ["accRoutine", 0, []]] + ORPHAN_ACCLOOP,
+    [["accEnterData", 0, []], ["accParallel", 0, NEST2]],
+    [["block", 0, [["accRoutine", 0, []]]]] + ORPHAN_ACCLOOP,
+]
+TRIPLE_SHAPES = [ROUTINE_SHAPES[i] for i in (0, 1, 4, 5, 7, 9)]
+
+
+def ccatalogue():
+    """Fixed catalogue of modules: all ordered pairs of ROUTINE_SHAPES, all triples of TRIPLE_SHAPES."""
+    out = [[a, b] for a in ROUTINE_SHAPES for b in ROUTINE_SHAPES]
+    out += [[a, b, c] for a in TRIPLE_SHAPES for b in TRIPLE_SHAPES for c in TRIPLE_SHAPES]
+    return out
+
+
 def real_table():
     return [(f, R.validate_all(R.build(f))) for f in catalogue()]
+
+
+def real_ctable():
+    return [(c, R.validate_all(R.build_container(c))) for c in ccatalogue()]
 
 
 def gen():
@@ -96,14 +131,26 @@ def gen():
     t.append("def tableOk (f : Forest → Outcome) : Bool :=")
     t.append("  " + " &&\n  ".join("table%d.all (fun p => f p.1 == p.2)" % i for i in range(len(chunks))))
     t.append("\ndef tableSize : Nat := %d" % len(rows))
+    crows = real_ctable()
+    cchunks = [crows[i:i + 100] for i in range(0, len(crows), 100)]
+    t.append("\n/-! modules (several routines): outcome of the same sweep over a whole Container -/")
+    for i, chunk in enumerate(cchunks):
+        t.append("def ctable%d : List (Container × Outcome) := [" % i)
+        t.append(",\n".join("  ([%s], %s)" % (", ".join(R.lean_term(f) for f in c),
+                                              "crash" if o.startswith("crash") else o) for c, o in chunk))
+        t.append("]\n")
+    t.append("def ctableOk (f : Container → Outcome) : Bool :=")
+    t.append("  " + " &&\n  ".join("ctable%d.all (fun p => f p.1 == p.2)" % i for i in range(len(cchunks))))
+    t.append("\ndef ctableSize : Nat := %d" % len(crows))
     t.append("end %s.Gen\n" % NS)
     return {"PsyVerif/Gen/%s.lean" % MODEL: "\n".join(t)}
 
 
 # ------------------------------------------------------------------ evaluation of one tree
 def model_eval(forests):
+    """forests: list of containers (each a list of routine forests)"""
     res = []
-    for line in driver(DRIVER, [R.to_sx(f) for f in forests]):
+    for line in driver(DRIVER, [R.container_sx(c) for c in forests]):
         p = line.split()
         if len(p) != 7:
             raise common.Infra("driver answered %r" % line)
@@ -140,18 +187,21 @@ def judge(m, val, wout, gf, history=True):
 
 
 class Item:
-    """A tree to check: how it was produced, its abstraction and the real outcomes."""
+    """A tree to check: how it was produced, its abstraction (a container: one forest per routine) and
+    the real outcomes."""
     def __init__(self, origin, forest, val, wout, code):
         self.origin, self.forest, self.val, self.wout, self.code = origin, forest, val, wout, code
 
 
-def observe(origin, root, routine):
+def observe(origin, root, routine=None):
+    """root: the whole tree handed to the writer (file container, module or a bare routine)"""
+    root = root if root is not None else routine
     try:
-        forest = R.abstract(routine)
+        forest = R.abstract_container(root)
     except R.Unmodelled:
         return None
-    val = R.validate_all(routine)
-    wout, text = R.writer_outcome(root if root is not None else routine)
+    val = R.validate_all(root)
+    wout, text = R.writer_outcome(root)
     return Item(origin, forest, val, wout, text if wout == "accept" else None)
 
 
@@ -217,45 +267,52 @@ def insert_leaf(forest, path, idx, kind):
     return out
 
 
-def record_step(steps, before, mop, status, routine, origin):
-    """Remember one real transformation step for comparison with C10.applyOp."""
+def record_step(steps, before, ri, mop, status, root, origin):
+    """Remember one real transformation step (applied to routine number ri of the tree `root`) for
+    comparison with C10.applyCOp.  before/after are containers: the WHOLE module is compared, so a
+    step that touches another routine than ri is a disagreement (C10_step_frame)."""
     if status == "applied":
         try:
-            after = R.abstract(routine)
+            after = R.abstract_container(root)
         except R.Unmodelled:
             return
         if mop is not None:
-            steps.append((before, mop, after, origin))
+            steps.append((before, ri, mop, after, origin))
         else:
-            mops = R.leaf_inserts(before, after)
+            mops = None
+            if len(after) == len(before) and all(a == b for j, (a, b) in enumerate(zip(after, before)) if j != ri):
+                mops = R.leaf_inserts(before[ri], after[ri])
             if mops is None:
-                steps.append((before, None, after, origin))       # not expressible: reported
+                steps.append((before, ri, None, after, origin))       # not expressible: reported
                 return
             cur = before
             for m in mops:
-                nxt = insert_leaf(cur, m[3], m[4], m[1])
-                steps.append((cur, m, nxt, origin))
+                nxt = list(cur)
+                nxt[ri] = insert_leaf(cur[ri], m[3], m[4], m[1])
+                steps.append((cur, ri, m, nxt, origin))
                 cur = nxt
             if cur != after:
-                steps.append((before, None, after, origin))
+                steps.append((before, ri, None, after, origin))
     elif status == "error:IndexError" and mop is not None and mop[0] == "loopDir" and mop[2]:
-        steps.append((before, mop, None, origin))                 # the model must refuse as well
+        steps.append((before, ri, mop, None, origin))                 # the model must refuse as well
 
 
 def check_steps(steps):
     lines, idx = [], []
     bad = []
-    for i, (before, mop, after, origin) in enumerate(steps):
+    for i, (before, ri, mop, after, origin) in enumerate(steps):
         if mop is None:
-            bad.append(("transformation step is not a C10.Op", dict(origin, before=before), "-", after))
+            bad.append(("transformation step is not a C10.COp (or changed another routine)",
+                        dict(origin, before=before), "-", after))
         else:
-            lines.append("(A %s %s)" % (R.to_sx(before), R.op_sx(mop)))
+            lines.append("(AC %s %d %s)" % (R.container_sx(before), ri, R.op_sx(mop)))
             idx.append(i)
     for i, out in zip(idx, driver(DRIVER, lines)):
-        before, mop, after, origin = steps[i]
-        expect = "none" if after is None else R.to_sx(after)
+        before, ri, mop, after, origin = steps[i]
+        expect = "none" if after is None else R.container_sx(after)
         if out.replace(" ", "") != expect.replace(" ", ""):
-            bad.append(("transformation step differs from C10.applyOp", dict(origin, before=before, op=mop), out, expect))
+            bad.append(("transformation step differs from C10.applyCOp",
+                        dict(origin, before=before, routine=ri, op=mop), out, expect))
     return len(lines), bad
 
 
@@ -271,6 +328,39 @@ def empty_loop_probes():
         for op in ("ompDo", "ompParallelDo", "ompTeamsDPD", "ompLoop", "accLoop"):
             for col in cols:
                 out.append((src, {"op": op, "path": [0], "collapse": col}))
+    return out
+
+
+XSRC = ("module m\n  implicit none\ncontains\n"
+        + "".join("  subroutine r%d(a, b, n)\n    integer, intent(in) :: n\n    real, intent(inout) :: a(n,n), b(n,n)\n"
+                  "    integer :: i, j\n    do i = 1, n\n      do j = 1, n\n        a(j,i) = b(j,i) + %d.0\n      end do\n"
+                  "    end do\n    do i = 1, n\n      b(i,1) = 2.0\n    end do\n  end subroutine r%d\n" % (k, k + 1, k)
+                  for k in range(2))
+        + "end module m\n")
+
+
+def cross_routine_ops():
+    """One operation of every transformation kind, placed on a two-statement routine of XSRC."""
+    ops = [{"op": k} for k in R.ROUTINE_OPS]
+    ops += [{"op": k, "path": [0], "collapse": None} for k in R.LOOP_OPS]
+    ops += [{"op": "accLoop", "path": [0], "collapse": 2}, {"op": "ompParallelDo", "path": [1], "collapse": None}]
+    ops += [{"op": k, "path": [], "range": [0, 1], "nowait": False} for k in R.REGION_OPS]
+    return ops
+
+
+def cross_routine_histories(all_pairs, seed_rng):
+    """(source, ops): two-step histories [X on routine p, Y on routine 1-p] for every ordered pair of
+    transformation kinds in which one is a routine-level (declarative) transformation — in the thorough
+    tier for ALL ordered pairs — plus a third step that closes an orphaned loop directive in a region."""
+    ops = cross_routine_ops()
+    out = []
+    for ix, x in enumerate(ops):
+        for iy, y in enumerate(ops):
+            if not all_pairs and x["op"] not in R.ROUTINE_OPS and y["op"] not in R.ROUTINE_OPS \
+                    and (ix * 31 + iy + seed_rng.randrange(7)) % 7:
+                continue
+            p = (ix + iy) % 2
+            out.append((XSRC, [dict(x, routine=p), dict(y, routine=1 - p)]))
     return out
 
 
@@ -318,58 +408,92 @@ def run(chk):
     # collapse walk must stay in the transformation, C10_total)
     for src, op in empty_loop_probes():
         root, routine = R.parse(src)
-        before, mop = R.abstract(routine), R.model_op(routine, op)
+        before, mop = R.abstract_container(root), R.model_op(routine, op)
         st = R.apply_op(routine, op)
         stats[st.split(":")[0]] += 1
-        record_step(steps, before, mop, st, routine, {"source": src, "ops": [op]})
+        record_step(steps, before, 0, mop, st, root, {"source": src, "ops": [op]})
         if st == "applied":
             wrap_op = {"op": "ompParallel" if op["op"].startswith("omp") else "accParallel", "path": [],
                        "range": [0, 1]}
             R.apply_op(routine, wrap_op)
-            it = observe({"kind": "history", "source": src, "ops": [op, wrap_op]}, root, routine)
+            it = observe({"kind": "history", "source": src, "ops": [op, wrap_op]}, root)
             if it is not None:
                 items.append(it)
+    # systematic cross-routine family: every ordered pair of transformation kinds applied to two
+    # DIFFERENT routines of one module (what routine A carries must not influence routine B)
+    nx = 0
+    xroot0, _ = R.parse(XSRC)
+    for src, ops in cross_routine_histories(all_pairs=thorough, seed_rng=chk.rng):
+        nx += 1
+        root = xroot0.copy()
+        routines = R.routines_of(root)
+        done = []
+        for op in ops:
+            ri = op["routine"]
+            before, mop = R.abstract_container(root), R.model_op(routines[ri], op)
+            st = R.apply_op(routines[ri], op)
+            done.append(op)
+            record_step(steps, before, ri, mop, st, root, {"source": src, "ops": list(done)})
+            stats[st.split(":")[0]] += 1
+            if st != "applied":
+                break
+        else:
+            it = observe({"kind": "history", "source": src, "ops": list(done)}, root)
+            if it is not None:
+                items.append(it)
+    dist_cross = nx
+    nrout_hist = {}
     for ih in range(n_hist):
         if ih % 2 == 0:
-            src = R.gen_program(chk.rng)
+            src = R.gen_module(chk.rng) if chk.rng.random() < 0.75 else R.gen_program(chk.rng)
             try:
                 root0, _ = R.parse(src)
             except Exception as err:  # pylint: disable=broad-except
                 raise common.Infra("generated program does not parse: %s\n%s" % (err, src))
         root = root0.copy()           # two histories per parsed program
-        routine = root.walk(R._nodes().Routine)[0]
+        routines = R.routines_of(root)
+        nrout_hist[len(routines)] = nrout_hist.get(len(routines), 0) + 1
         ops = []
         family = chk.rng.choice(["omp"] * 9 + ["acc"] * 7 + ["mixed"] * 4)
         for _step in range(chk.rng.randint(1, 8)):
-            op = R.gen_op(chk.rng, routine, family)
+            ri = chk.rng.randrange(len(routines))
+            op = R.gen_op(chk.rng, routines[ri], family, p_routine=0.035 if len(routines) == 1 else 0.2)
             if op is None:
                 continue
+            op["routine"] = ri
             try:
-                before = R.abstract(routine)
-                mop = R.model_op(routine, op)
+                before = R.abstract_container(root)
+                mop = R.model_op(routines[ri], op)
             except R.Unmodelled:
                 before = mop = None
-            st = R.apply_op(routine, op)
+            st = R.apply_op(routines[ri], op)
             ops.append(op)
             if before is not None:
-                record_step(steps, before, mop, st, routine, {"source": src, "ops": list(ops)})
+                record_step(steps, before, ri, mop, st, root, {"source": src, "ops": list(ops)})
             ops_hist[op["op"]] = ops_hist.get(op["op"], 0) + 1
             stats[st.split(":")[0]] += 1
             if st.startswith("error"):
                 break
             if st == "applied":
-                it = observe({"kind": "history", "source": src, "ops": list(ops)}, root, routine)
+                it = observe({"kind": "history", "source": src, "ops": list(ops)}, root)
                 if it is None:
                     stats["unmodelled"] += 1
                     break
                 items.append(it)
-    for _ in range(n_forest):
-        f = random_forest(chk.rng)
+    for i_f in range(n_forest):
+        # one routine (bare, no container) or a module of 2-3 routines
+        nr = 1 if i_f % 3 else chk.rng.choice([2, 2, 3])
+        fs = [random_forest(chk.rng) for _ in range(nr)]
+        if nr > 1 and chk.rng.random() < 0.5:
+            # routine-level facts are rare in random forests: put a declarative directive on top of one
+            # routine and a directive that may depend on it somewhere
+            fs[chk.rng.randrange(nr)].insert(0, [chk.rng.choice(["accRoutine", "accRoutine", "ompDeclareTarget"]), 0, []])
+            fs[chk.rng.randrange(nr)].insert(chk.rng.randint(0, 1), ["accLoop", chk.rng.choice([0, 0, 2]), NEST2])
         try:
-            routine = R.build(f)
+            root = R.build(fs[0]) if nr == 1 else R.build_container(fs)
         except Exception as err:  # pylint: disable=broad-except
-            raise common.Infra("builder failed on %s: %s" % (f, err))
-        it = observe({"kind": "forest", "forest": f}, None, routine)
+            raise common.Infra("builder failed on %s: %s" % (fs, err))
+        it = observe({"kind": "forest", "forest": fs[0]} if nr == 1 else {"kind": "container", "forests": fs}, root)
         if it is not None:
             items.append(it)
 
@@ -386,8 +510,8 @@ def run(chk):
         agreed = (norm(it.val) == m["writer"])
         # the writer validates the lowered copy: it can only be stricter than the sweep
         consistent = not (it.wout == "accept" and it.val != "accept")
-        nontriv = any(k not in ("stmt", "block", "loop") for k in R.kinds_in(it.forest))
-        chk.case({"forest": it.forest}, nontrivial=nontriv, agreed=agreed and consistent)
+        nontriv = any(k not in ("stmt", "astmt", "block", "loop") for f in it.forest for k in R.kinds_in(f))
+        chk.case({"container": it.forest}, nontrivial=nontriv, agreed=agreed and consistent)
         dist["writer_" + norm(it.wout)] += 1
         gf = None
         suspicious = not agreed or not consistent
@@ -419,17 +543,29 @@ def run(chk):
     if chk.broken and not violations:
         # focused search: the catalogue and the single-path projections of the disagreeing trees,
         # run through the real writer and judged against the spec
-        cands = catalogue()
+        cands = [[f] for f in catalogue()] + ccatalogue()
         for b in chk.broken:
-            if b.get("kind") == "correspondence":
-                cands += projections(b["case"]["abstract"])
+            if b.get("kind") == "correspondence" and "abstract" in b["case"]:
+                cont = b["case"]["abstract"]
+                for j, f in enumerate(cont):
+                    # single-path projections of one routine, the other routines kept / reduced to
+                    # their leading declarative directives
+                    for pf in projections(f):
+                        cands.append([pf])
+                        if len(cont) > 1:
+                            cands.append([pf if i == j else g for i, g in enumerate(cont)])
+                            cands.append([pf if i == j else [x for x in g[:2] if x[0] in ("accRoutine", "ompDeclareTarget")]
+                                          + [["stmt", 0, []]] for i, g in enumerate(cont)])
         seen = set()
         todo = []
-        for f in cands:
-            key = R.to_sx(f)
+        for c in cands:
+            key = R.container_sx(c)
             if key not in seen:
                 seen.add(key)
-                it = observe({"kind": "forest", "forest": f}, None, R.build(f))
+                if len(c) == 1:
+                    it = observe({"kind": "forest", "forest": c[0]}, R.build(c[0]))
+                else:
+                    it = observe({"kind": "container", "forests": c}, R.build_container(c))
                 if it is not None and it.wout == "accept":
                     todo.append(it)
         for it, m in zip(todo, model_eval([it.forest for it in todo])):
@@ -444,7 +580,9 @@ def run(chk):
     for payload in violations.values():      # one failing input per class (kind of the offending directive)
         chk.violation(payload)
     chk.cov["distribution"] = dict(dist, steps=stats, ops=ops_hist, trees=len(items),
-                                   catalogue=len(catalogue()))
+                                   catalogue=len(catalogue()), module_catalogue=len(ccatalogue()),
+                                   cross_routine_histories=dist_cross, routines_per_history=nrout_hist,
+                                   multi_routine_trees=sum(1 for it in items if len(it.forest) > 1))
     chk.cov["exhaustive"] = False
 
     for entry in common.known_findings("C10"):
@@ -456,10 +594,12 @@ def run(chk):
 # ------------------------------------------------------------------ replay
 def item_of_payload(payload):
     if payload.get("kind") == "history":
-        root, routine, _ = R.run_history(payload["source"], payload["ops"])
-        return observe({"kind": "history", "source": payload["source"], "ops": payload["ops"]}, root, routine)
+        root, _, _ = R.run_history(payload["source"], payload["ops"])
+        return observe({"kind": "history", "source": payload["source"], "ops": payload["ops"]}, root)
     if payload.get("kind") == "forest":
-        return observe({"kind": "forest", "forest": payload["forest"]}, None, R.build(payload["forest"]))
+        return observe({"kind": "forest", "forest": payload["forest"]}, R.build(payload["forest"]))
+    if payload.get("kind") == "container":
+        return observe({"kind": "container", "forests": payload["forests"]}, R.build_container(payload["forests"]))
     return None
 
 
@@ -480,7 +620,7 @@ def replay_witness(payload, quiet=False):
             print(payload["source"])
             for op in payload["ops"]:
                 print("  op:", op)
-        print("abstract tree :", R.to_sx(it.forest))
+        print("abstract tree (one forest per routine):", R.container_sx(it.forest))
         print("real validate sweep:", it.val, "| real FortranWriter:", it.wout)
         if it.code:
             print(it.code)
